@@ -70,7 +70,7 @@ def escape(payload):
             zeros = 0
         out.append(b)
         zeros = zeros + 1 if b == 0 else 0
-    if len(payload) and payload[-1] == 0:
+    if zeros >= 2:          # the payload ends with 00 00 (cabac_zero_words): a final 03 is appended
         out.append(3)
     return bytes(out)
 
